@@ -8,6 +8,6 @@ def _extra(ctx):
     run_session_correspondence(ctx)      # the host half is a theorem about the session-core model (ss=[..] = spectator sends)
 LABELS = {"C06", "C02", "PANIC"}
 def run(ctx):
-    generic_run(ctx, LABELS, extra=_extra, plan=[("spectator", lambda: F.fam_spectator(ctx.rng, sizes(ctx, 200, 2000))), ("nospec_pairs", lambda: F.fam_spec_pairs(ctx.rng, sizes(ctx, 80, 600))), ("death2spec", lambda: F.fam_death(ctx.rng, sizes(ctx, 60, 400)))], pair_what="spectators attached", pair_fields=("req", "st", "frames"))
+    generic_run(ctx, LABELS, extra=_extra, plan=[("spectator", lambda: F.fam_spectator(ctx.rng, sizes(ctx, 200, 2000))), ("nospec_pairs", lambda: F.fam_spec_pairs(ctx.rng, sizes(ctx, 80, 600))), ("death2spec", lambda: F.fam_death(ctx.rng, sizes(ctx, 60, 400))), ("reorder_at_drop", lambda: F.fam_spectator_reorder_at_drop(ctx.rng, sizes(ctx, 150, 1000)))], pair_what="spectators attached", pair_fields=("req", "st", "frames"))
 def replay(ctx, path):
     return sim_replay(ctx, path, LABELS)
